@@ -150,6 +150,17 @@ func checkC18(c *Check) {
 			P = c.P.abbrev(s.Fn.Obj.FullName())
 		}
 	}
+	// the parser proper is the function from the extension value to the list of locations, however
+	// its body is split into helpers
+	for _, fs := range c.P.productFuncs() {
+		if !strings.HasSuffix(fs.Pkg.PkgPath, "/revocation/crl") {
+			continue
+		}
+		sig := fs.Obj.Type().(*types.Signature)
+		if sig.Params().Len() == 1 && sig.Results().Len() == 2 && c.P.typeStr(sig.Params().At(0).Type()) == "[]byte" && c.P.typeStr(sig.Results().At(0).Type()) == "[]string" {
+			P = c.P.abbrev(fs.Obj.FullName())
+		}
+	}
 	if D == "" || P == "" {
 		c.undecided("O-C18", "helpers", "download helper or distribution-point parser not found", "")
 		return
@@ -431,24 +442,20 @@ func parserFailsOnBadRead(c *Check) {
 		c.floor(fs.Obj.Name()+" failed-read edges", 3, len(edgeSources(pg, failed)))
 		okRets := returnsWhere(pg, func(s *PState) bool { return retNilErr(s, 1) })
 		c.floor(fs.Obj.Name()+" successful returns", 1, len(okRets))
-		// every name of a distribution point is looked at: after a location was collected the parser
-		// asks again whether the same name list is exhausted (an `if` in place of the inner loop keeps
-		// only the first location, and the others are never tried when it fails)
-		collected := LP{Desc: "a location is collected", F: func(l Label) bool {
-			return l.Kind == "assign" && l.T2 != nil && l.T2.Op == "call" && l.T2.Name == "append" && len(l.T2.Args) == 2 && l.T2.Args[0].Op == "self" && l.Node != nil && l.Node.Note == ""
-		}}
-		emptyTest := func(inner bool) LP {
-			return LP{Desc: "emptiness test", F: func(l Label) bool {
-				if l.Kind != "atom" || l.Implied || !strings.HasPrefix(l.Key, "Truth((golang.org/x/crypto/cryptobyte.String).Empty(") {
-					return false
-				}
-				return strings.Contains(l.Key, "ContextSpecific(6)") == inner
-			}}
+		// every name of a distribution point is looked at: the statement that collects a location sits
+		// under two loops (distribution points, names of one point), counted through helper calls - an
+		// `if` in place of the inner loop keeps only the first location of each point, and the others
+		// are never tried when it fails
+		depths := collectDepths(c, fs)
+		okDepth := len(depths) > 0
+		var dd []string
+		for where, d := range depths {
+			if d < 2 {
+				okDepth = false
+				dd = append(dd, fmt.Sprintf("%s: under %d loop(s)", where, d))
+			}
 		}
-		if len(edgeSources(pg, collected)) > 0 {
-			tg := append(append([]*PState{}, okRets...), edgeSources(pg, emptyTest(false))...)
-			c.noPathFrom(pg, "O-C18.4", fs.Obj.Name()+": every name of a distribution point is examined", "after a location was collected the rest of the same name list is examined before the next distribution point or the return", collected, tg, ptr(emptyTest(true)))
-		}
+		c.add("O-C18.4", fs.Obj.Name()+": every name of a distribution point is examined", "each location is collected inside a loop over the names of a distribution point inside a loop over the distribution points", okDepth, c.P.pos(fs.Decl.Pos()), sortedCopy(dd)...)
 		c.noPathFrom(pg, "O-C18.4", fs.Obj.Name()+": a failed DER read is an error", "after a DER read failed the parser does not return successfully (with the locations read so far, or none)", failed, okRets, nil)
 	}
 	c.floor("distribution-point parsers (read discipline)", 1, n)
@@ -502,4 +509,70 @@ func localOnlyReturnedOrTested(info *types.Info, file *ast.File, v *types.Var) b
 		return true
 	})
 	return ok
+}
+
+// collectDepths: for every statement `x = append(x, string(<cryptobyte.String>))` in the call tree of
+// the parser fs, the number of loops it is under - in its own function plus, through the (single)
+// chain of calls up to fs, the loops around each call.
+func collectDepths(c *Check, fs *FuncSrc) map[string]int {
+	out := map[string]int{}
+	loopsAround := func(body *ast.BlockStmt, pos token.Pos) int {
+		n := 0
+		ast.Inspect(body, func(m ast.Node) bool {
+			switch x := m.(type) {
+			case *ast.ForStmt:
+				if x.Body.Pos() <= pos && pos <= x.Body.End() {
+					n++
+				}
+			case *ast.RangeStmt:
+				if x.Body.Pos() <= pos && pos <= x.Body.End() {
+					n++
+				}
+			}
+			return true
+		})
+		return n
+	}
+	var visit func(f *FuncSrc, above int, depth int)
+	visit = func(f *FuncSrc, above int, depth int) {
+		if depth > 6 {
+			return
+		}
+		info := f.Pkg.TypesInfo
+		ast.Inspect(f.Decl.Body, func(m ast.Node) bool {
+			switch x := m.(type) {
+			case *ast.AssignStmt:
+				if len(x.Rhs) != 1 {
+					return true
+				}
+				call, ok := ast.Unparen(x.Rhs[0]).(*ast.CallExpr)
+				if !ok || len(call.Args) != 2 || call.Ellipsis.IsValid() {
+					return true
+				}
+				if id, ok := call.Fun.(*ast.Ident); !ok || id.Name != "append" {
+					return true
+				}
+				conv, ok := ast.Unparen(call.Args[1]).(*ast.CallExpr)
+				if !ok || len(conv.Args) != 1 {
+					return true
+				}
+				if tv, ok := info.Types[conv.Fun]; !ok || !tv.IsType() {
+					return true
+				}
+				if at := info.TypeOf(conv.Args[0]); at == nil || !strings.HasSuffix(at.String(), "cryptobyte.String") {
+					return true
+				}
+				out[c.P.pos(x.Pos())] = above + loopsAround(f.Decl.Body, x.Pos())
+			case *ast.CallExpr:
+				if fn, ok := typeutil.Callee(info, x).(*types.Func); ok {
+					if cf := c.P.Funcs[fn.Origin()]; cf != nil && cf != f && isProductPkg(cf.Pkg.PkgPath, c.P.ModPath) {
+						visit(cf, above+loopsAround(f.Decl.Body, x.Pos()), depth+1)
+					}
+				}
+			}
+			return true
+		})
+	}
+	visit(fs, 0, 0)
+	return out
 }
